@@ -2,7 +2,10 @@
 """C05 implementation runner: energy transfer for arrival times around the NaN boundary.
 stdin {"groups":[{"id","mode":"direct|indirect","Ei":si,"Ef":si,"L1":si,"L2":si,
                   "units":{"tof","L1","L2","E"},"dtypes":{"tof","L1","L2","E"},"ks":[ints],"extra":[factors],
-                  "layout": "scalar" (default: L1, L2, E scalars) | "aligned" (L1, L2, E arrays along the tof dim)}]}
+                  "layout": "scalar" (default: L1, L2, E scalars) | "aligned" (L1, L2, E arrays along the tof dim),
+                  "container": optional {"form": "DataArray"|"Dataset", "items": [{"kind": "dense"} |
+                                {"kind": "binned", "order": permutation of the events, "begin": cuts into bins}]}
+                               -> "convert_items": the energy transfer of EVERY item (per event for binned items)}]}
 For each group the harness computes, WITH THE IMPLEMENTATION'S OWN ARITHMETIC, t0 of the fixed leg in
 the tof unit/dtype, builds tof = [physical t, t0*(1+k*eps) for k in ks, t0*f for f in extra] and runs the kernel."""
 import json, sys, math
@@ -13,6 +16,75 @@ import scipp.constants as const
 sys.path.insert(0, __file__.rsplit('/', 1)[0])
 from kernels_impl import unit_info, exact, stored, describe_result
 from scippneutron.conversion import tof as ktof
+
+
+def events_in_order(var, n):
+    """the per-event values of a binned variable, bin after bin (a dense Variable along 'event')"""
+    c = var.bins.constituents
+    data, begin, end = c['data'], np.asarray(c['begin'].values).reshape(-1), np.asarray(c['end'].values).reshape(-1)
+    parts = [data[c['dim'], int(b):int(e)] for b, e in zip(begin, end)]
+    out = sc.concat(parts, c['dim']) if parts else data[c['dim'], 0:0]
+    if out.sizes[c['dim']] != n:
+        raise ValueError(f'{out.sizes[c["dim"]]} events in the result for {n} events supplied')
+    return out
+
+
+def convert_containers(spec, tofv, L1, L2, E, ename):
+    """scippneutron.convert on a CONTAINER holding the arrival times `tofv` (dim 't', n values): a DataArray of binned
+    events or a Dataset of 1..3 items, each item dense (arrival times = the shared dense coordinate 'tof') or binned
+    (n bins along 't'; the n arrival times are the event-wise 'tof' of the item, in the item's own order `order` and
+    cut into bins at the item's own `begin`).  -> per item the energy transfer of arrival time i at position i (dim 't'),
+    whatever the order / binning of the events."""
+    import scippneutron as scn
+    n = len(tofv)
+    kinds = [it['kind'] for it in spec['items']]
+    shared = {'L1': L1, 'L2': L2, ename: E}
+    if 'dense' in kinds:
+        shared['tof'] = tofv
+    items, names = {}, []
+    for j, it in enumerate(spec['items']):
+        name = f'item{j}_{it["kind"]}'
+        names.append(name)
+        if it['kind'] == 'dense':
+            items[name] = sc.DataArray(sc.ones(sizes={'t': n}) * float(j + 1), coords=shared)
+        else:
+            order = np.array([k for k in it['order'] if k < n] + [k for k in range(n) if k not in set(it['order'])])
+            ev = sc.array(dims=['event'], values=np.asarray(tofv.values)[order], unit=tofv.unit, dtype=tofv.dtype)
+            buf = sc.DataArray(sc.ones(sizes={'event': n}, unit='counts'), coords={'tof': ev})
+            begin = sorted(min(int(b), n) for b in it['begin'])[:n]
+            begin = ([0] + begin + [n] * n)[:n]
+            data = sc.bins(data=buf, dim='event', begin=sc.array(dims=['t'], values=begin, unit=None, dtype='int64'))
+            items[name] = sc.DataArray(data, coords=shared)
+            it['_order'] = order
+    if spec['form'] == 'DataArray':
+        conv = {names[0]: scn.convert(items[names[0]], origin='tof', target='energy_transfer', scatter=True)}
+    else:
+        conv = scn.convert(sc.Dataset(items), origin='tof', target='energy_transfer', scatter=True)
+    out = []
+    for it, name in zip(spec['items'], names):
+        rec = {'item': name, 'kind': it['kind']}
+        try:
+            c = conv[name]
+            if it['kind'] == 'dense':
+                rec['where'] = 'dense coordinate'
+                rec['result'] = describe_result(c.coords['energy_transfer'])
+            else:
+                rec['where'] = 'event coordinate'
+                rec['order'] = [int(k) for k in it['_order']]
+                rec['begin'] = [int(b) for b in np.asarray(items[name].bins.constituents['begin'].values).reshape(-1)]
+                if c.bins is None:
+                    raise ValueError('the converted item is no longer binned')
+                if 'energy_transfer' not in c.bins.coords:
+                    raise KeyError('the events of the converted item carry no energy_transfer coordinate '
+                                   f'(event coordinates: {sorted(c.bins.coords.keys())})')
+                evs = events_in_order(c.bins.coords['energy_transfer'], n)
+                vals = np.empty(n, dtype=evs.values.dtype)
+                vals[it['_order']] = evs.values
+                rec['result'] = describe_result(sc.array(dims=['t'], values=vals, unit=evs.unit, dtype=evs.dtype))
+        except Exception as ex:
+            rec['error'] = type(ex).__name__ + ': ' + str(ex)[:200]
+        out.append(rec)
+    return out
 
 
 def main():
@@ -105,6 +177,14 @@ def main():
             res['result_convert'] = describe_result(conv.coords['energy_transfer'])
         except Exception as ex:
             res['error_convert'] = type(ex).__name__ + ': ' + str(ex)[:150]
+        # ... and through convert() on containers: DataArray of binned events, Datasets of 1..3 dense / binned items
+        if g.get('container'):
+            spec = g['container']
+            res['container'] = {'form': spec['form'], 'kinds': [it['kind'] for it in spec['items']]}
+            try:
+                res['convert_items'] = convert_containers(spec, tofv, L1, L2, E, ename)
+            except Exception as ex:
+                res['error_container'] = type(ex).__name__ + ': ' + str(ex)[:200]
         res['inputs_unchanged'] = all(sc.identical(env[k], snap[k], equal_nan=True) for k in env)
         res['expected_si'] = g['Ei'] - g['Ef']
         res['si'] = {k: g[k] for k in ('Ei', 'Ef', 'L1', 'L2')}
